@@ -6,6 +6,8 @@
                                                         headers, JumpToByteBoundary, raw bytes, empty last meta-block): hex of the stream
      D <allow_large 0|1> <stream hex|->                 decode with the extracted RFC 7932 decoder
      DP <allow_large> <prefix hex|-> <stream hex|->     same with a custom-dictionary prefix
+     DR <allow_large> <hex of a stream prefix that ends at a meta-block boundary>
+                                                        decoder state there: ring=<d1.d2.d3.d4> pushes=<n> pos=<bytes> p=<p1.p2> c=<compressed meta-blocks> u=<uncompressed>
    answers:  OK <len> <hash> I=<k:v,...> [H=<hex of output if len <= 64>]   |   ERR <code>
    The static dictionary and the transform list (Section parameters of coq/spec/Decoder.v) are
    loaded from dict.bin / dict_offsets.txt / transforms.txt next to the executable
@@ -41,7 +43,7 @@ let transform_tbl (id : n) = let i = int_of_n id in if i < Array.length transfor
 let hash_bytes (l : n list) = Stdlib.List.fold_left (fun h b -> hmix h (int_of_n b)) 0 l
 let info_string i =
   let b = Buffer.create 64 in
-  for k = 1 to 33 do
+  for k = 1 to 34 do
     let v = int_of_n (ngetd i (n_of_int k)) in
     if v <> 0 then Buffer.add_string b (Printf.sprintf "%s%d:%d" (if Buffer.length b > 0 then "," else "") k v)
   done; if Buffer.length b = 0 then "-" else Buffer.contents b
@@ -95,6 +97,14 @@ let () = iter_lines (fun line ->
   match split_ws line with
   | ["D"; lw; s] -> print_endline (run lw "-" s)
   | ["DP"; lw; p; s] -> print_endline (run lw p s)
+  | ["DR"; lw; s] ->
+    (match decode_prefix dict_word transform_tbl (lw <> "0") [] (bytes_of_string (unhex s)) with
+     | Ok ((rg, ((pos, p1), p2)), i) ->
+       let (((a, b), c), d) = rg in
+       Printf.printf "ring=%d.%d.%d.%d pushes=%d pos=%d p=%d.%d c=%d u=%d\n" (int_of_n a) (int_of_n b) (int_of_n c) (int_of_n d)
+         (int_of_n (ngetd i (n_of_int 34))) (int_of_n pos) (int_of_n p1) (int_of_n p2)
+         (int_of_n (ngetd i (n_of_int 1))) (int_of_n (ngetd i (n_of_int 2)))
+     | Err e -> Printf.printf "ERR %d\n" (int_of_n e))
   | ["SC"; lgwin; lw; lens; data] ->
     let (lb, lbb) = encode_window_bits (z_of_int (int_of_string lgwin)) (lw <> "0") in
     let hb = n_to_bits (nat_of_int (int_of_n lbb)) lb in
